@@ -81,8 +81,15 @@ def cases(tier, seed):
                 "op_again_at": int(rng.integers(1, 5)),
                 "seed": int(rng.integers(1 << 30)),
             }
+            c["rand_w"] = bool(r % 2 == 0 and r > 0) or bool(rng.random() < 0.3)
             if algo in ("DDPG", "TD3"):
                 c["share_encoders"] = bool(r % 2)
+                # asymmetric / per-dimension action bounds and target-policy smoothing noise large enough to leave them
+                c["act"] = ["box", "box_asym3", "box_asym", "box_asym3"][(r + (algo == "TD3")) % 4]
+                c["policy_noise"] = [0.0, 0.2, 0.8][r % 3]
+                c["noise_clip"] = [0.5, 1.5][(r // 3) % 2]
+            if algo in ("MADDPG", "MATD3"):
+                c["act"] = ["box", "box_asym3", "box_asym"][r % 3]
             if c["obs"] == "image":
                 c["no_batch_norm"] = bool(rng.random() < 0.7)
             out.append(c)
@@ -113,7 +120,37 @@ def _build(case):
             "encoder_config": {"channel_size": [8], "kernel_size": [3], "stride_size": [1], "layer_norm": False},
         }
     agentops.seed_all(case["seed"])
-    return zoo.make_agent(algo, case["obs"], hp_config=zoo.tiny_hp_config(algo), **kw)
+    agent = zoo.make_agent(algo, case["obs"], case.get("act"), hp_config=zoo.tiny_hp_config(algo), **kw)
+    if case.get("rand_w"):
+        _randomise_online(agent, case["seed"])
+    return agent
+
+
+def _randomise_online(agent, seed):
+    """Freshly built networks end in vanishing output layers: targets barely react to their inputs and online == target.
+    Every weight matrix of the online AND the target networks is redrawn independently (in place, N(0, 1/sqrt(fan_in))),
+    so online and target differ and target values really depend on next observations and next actions."""
+    import torch
+    import torch.nn as nn
+
+    gen = torch.Generator().manual_seed(int(seed) % (2**31))
+    names = []
+    for g in agent.registry.groups:
+        names.append(g.eval)
+        if g.shared is not None:
+            names += list(g.shared) if isinstance(g.shared, list) else [g.shared]
+    for name in names:
+        nets = getattr(agent, name)
+        for net in nets if isinstance(nets, list) else [nets]:
+            if not isinstance(net, nn.Module):
+                continue
+            with torch.no_grad():
+                # walk the sub-modules' own tables: DQN installs plain tensors (TensorDict.to_module) in its target
+                for m in nn.Module.modules(net):
+                    for t in m._parameters.values():
+                        if t is not None and t.dim() >= 2:
+                            fan_in = max(1, int(t[0].numel()))
+                            t.data.copy_(torch.randn(t.shape, generator=gen) * (1.0 / fan_in**0.5))
 
 
 def _apply_after(agent, case, rec):
@@ -221,11 +258,16 @@ def _do_learn(agent, case, batch, nbatch, wseed):
             exp["idxs"] = torch.arange(batch["n"]).reshape(-1, 1)
         return agent.learn(exp, n_experiences=n_exp, per=mode in ("per", "per_nstep"))
     if algo in ("DDPG", "TD3"):
-        return agent.learn(exp, policy_noise=0.0)
+        import torch
+
+        # target-policy smoothing: the noise is the first random draw inside learn(); seeding it here lets the
+        # reference replay exactly the same sample
+        torch.manual_seed(int(wseed) % (2**31))
+        return agent.learn(exp, policy_noise=float(case.get("policy_noise", 0.0)), noise_clip=float(case.get("noise_clip", 0.5)))
     return agent.learn(exp)
 
 
-def _reference_loss(ref, case, batch):
+def _reference_loss(ref, case, batch, wseed=0):
     """Loss the statement defines, computed on the pre-step copy `ref` (float32, no grad)."""
     import torch
     import torch.nn.functional as F
@@ -265,6 +307,13 @@ def _reference_loss(ref, case, batch):
             na = ref.actor_target(s2)
             lo = torch.as_tensor(ref.action_space.low)
             hi = torch.as_tensor(ref.action_space.high)
+            pn, nc = float(case.get("policy_noise", 0.0)), float(case.get("noise_clip", 0.5))
+            if pn > 0:
+                # the smoothing noise learn() draws (same generator state, same shape and dtype as the action batch),
+                # clipped to +-noise_clip; the smoothed action is then clipped to the ACTION SPACE [low, high]
+                torch.manual_seed(int(wseed) % (2**31))
+                noise = torch.empty_like(a).normal_(0, pn)
+                na = na + torch.clamp(noise, -nc, nc)
             na = torch.max(torch.min(na, hi), lo)
             if algo == "DDPG":
                 y = r + (1 - d) * g * ref.critic_target(s2, na)
@@ -423,7 +472,7 @@ def run_case(case):
 
         # ---------------- (a) Bellman loss
         try:
-            want = _reference_loss(ref, case, batch)
+            want = _reference_loss(ref, case, batch, wseed)
         except CaseTimeout:
             raise
         except Exception as e:
